@@ -366,6 +366,22 @@ def _run_identity(ctx, p):
                 if not core.is_library_exception(exc):
                     raise
 
+    # the shell grid handed back is the caller's to use: writing into it must not reach the atomic grid, and a second
+    # request still returns exactly that shell (the post-condition on get_shell_grid decides the second request)
+    i = int(rng.integers(0, n))
+    try:
+        before_p, before_w = np.array(at.points), np.array(at.weights)
+        sh = at.get_shell_grid(i)
+        if sh.size:
+            sh.points[...] = sh.points + 1.2345
+            sh.weights[...] = sh.weights * 3.0 + 0.5
+        ctx.check("shell-grid-is-independent-of-the-atomic-grid", subj, bool(np.array_equal(np.asarray(at.points), before_p) and np.array_equal(np.asarray(at.weights), before_w)), sig="atomic-grid-changed-by-writing-into-returned-shell")
+        at.get_shell_grid(i)
+        at.get_shell_grid(i, r_sq=False)
+    except Exception as exc:
+        if not core.is_library_exception(exc):
+            raise
+
     # factorisation
     if True:
         check_factorisation(ctx, at, subj, 14 if ctx.tier == "quick" or rng.random() < 0.8 else 30)
